@@ -361,3 +361,14 @@ package arvados
 //@   ensures off <= len(me.buf) ==> n == min(len(p), len(me.buf) - off) && (forall k int :: 0 <= k && k < n ==> p[k] == old(me.buf[off + k]))
 //@   ensures off <= len(me.buf) ==> (err == nil) == (n == len(p))
 //@   ensures err == nil || err == io.EOF
+
+// DoAndDecode: when the caller supplied a destination, success means the
+// response body was handed to the JSON decoder and decoded without error (an
+// empty or truncated 200 body is an error, never "nothing to report").
+//@ func Client.DoAndDecode property C06
+//@   ghost dec bool = false
+//@   ghost uerr error = nil
+//@   calls json.Unmarshal#1: requires string($0) == string(buf) && $1 == dst
+//@   calls json.Unmarshal#*: set dec = true
+//@   calls json.Unmarshal#*: set uerr = $r
+//@   ensures result == nil && dst != nil ==> dec && uerr == nil
